@@ -38,7 +38,8 @@ def explore(work, name, **kw):
     cfg = os.path.join(work, "MC_TextBody_%s.cfg" % name)
     with open(cfg, "w") as f:
         f.write(CFG % d)
-    r = E.run_tlc("MC_TextBody", cfg, work=work, workers=8, timeout=3000, extra=["-coverage", "1"], heap="6g")
+    # DEPTH > 1: one worker, so that the history TLC keeps for a body reached several ways is always the same one
+    r = E.run_tlc("MC_TextBody", cfg, work=work, workers=8 if d["depth"] == 1 else 1, timeout=3000, extra=["-coverage", "1"], heap="6g")
     if r.invariant_violated or r.action_prop_violated or "is violated" in r.out:
         raise E.MachineryError("design-level check failed in MC_TextBody[%s]: %s (the Impl transcription no longer satisfies the "
                                "property layer; see %s)" % (name, r.action_prop_violated, work))
@@ -46,6 +47,10 @@ def explore(work, name, **kw):
     priors = r.printed("PRIORS")
     if not priors or not cases:
         raise E.MachineryError("MC_TextBody[%s] emitted %d cases / %d prior tables" % (name, len(cases), len(priors)))
+    cc = r.coverage_counts()
+    taken = sum(cc.get(a, 0) for a in ASSIGN + ("AddPara", "AddRun", "AddBreak", "SetParaProp"))
+    if taken != len(cases):                                     # PrintT lines of concurrent workers must not have been lost or merged
+        raise E.MachineryError("MC_TextBody[%s]: %d API transitions taken, %d scenarios parsed" % (name, taken, len(cases)))
     cases.sort(key=lambda h: json.dumps(h, sort_keys=True))     # TLC's output order is not deterministic with several workers
     random.Random(E.seed() + 4).shuffle(cases)                  # mixes levels and lengths evenly over batches and chunks
     return cases, priors[-1], r, d
